@@ -115,13 +115,14 @@ def _one(sc, r):
         scale = max([float(np.abs(t).max()) for t in terms] + [0.0])
         err = float(np.abs(got - want).max())
         r.count("comparisons")
-        if err <= atol:
+        if err <= atol and scale <= 10.0 * atol:
             # a record that is itself only the round-off residue of cancelling products (see flux_floor below)
             r.ok(None)
+            r.count("flux_records_at_cancellation_level")
             return
         relerr = err / scale if scale > 0 else (0.0 if err == 0 else float("inf"))
         r.worst("worst_rel_err_" + rel, relerr)
-        if relerr <= 1e-9:
+        if relerr <= 1e-9 or err <= atol:
             r.ok(sig if (nontriv and scale > 0) else None)
         else:
             r.violate(f"{rel}: {name} violates the relation, rel err {relerr:.3e}", {**wit, "array": name, "rel_err": relerr}, sig=sig)
